@@ -1,7 +1,7 @@
 CONSTANTS
   B = 4
-  MemSize = 8
-  PtrVals = {0,1,2}
+  MemSize = 7
+  PtrVals = {0,1}
   DataInit <- DataSmall
   MaxOps = 4
   Dev = "none"
